@@ -62,76 +62,87 @@ def _strip(text):
 
 
 def generate():
+    """names of locals and parameters are not part of the anchors (\\w+ with back-references);
+    struct fields, methods, constants and the shape of the expressions are"""
     import gen_tables as gt
     out = []
     th = gt.src("src/enc/threading.rs")
     en = gt.src("src/enc/encode.rs")
     fq = gt.src("src/enc/fixed_queue.rs")
+    W = r"(\w+)"
     m = re.search(r"pub\s+const\s+MAX_THREADS\s*:\s*usize\s*=\s*(\d+)\s*;", fq)
     if not m:
         raise gt.GenError("fixed_queue.rs: MAX_THREADS not found")
     out.append("Definition MULTI_MAX_THREADS : N := %d." % int(m.group(1)))
     # get_range: the exact expression
-    m = re.search(r"fn\s+get_range\s*\(\s*thread_index\s*:\s*usize\s*,\s*num_threads\s*:\s*usize\s*,\s*file_size\s*:\s*usize\s*\)\s*->\s*Range<usize>\s*\{\s*"
-                  r"\(\(thread_index\s*\*\s*file_size\)\s*/\s*num_threads\)\s*\.\.\s*\(\(\(thread_index\s*\+\s*1\)\s*\*\s*file_size\)\s*/\s*num_threads\)\s*\}", th)
+    m = re.search(r"fn\s+get_range\s*\(\s*" + W + r"\s*:\s*usize\s*,\s*" + W + r"\s*:\s*usize\s*,\s*" + W + r"\s*:\s*usize\s*,?\s*\)\s*->\s*Range<usize>\s*\{\s*"
+                  r"\(\(\1\s*\*\s*\3\)\s*/\s*\2\)\s*\.\.\s*\(\(\(\1\s*\+\s*1\)\s*\*\s*\3\)\s*/\s*\2\)\s*\}", th)
     out.append("Definition multi_get_range_is_floor_split : bool := %s." % ("true" if m else "false"))
     # set_custom_dictionary_with_optional_precomputed_hasher
     sd = _strip(_fn_body(en, r"pub\s+fn\s+set_custom_dictionary_with_optional_precomputed_hasher\s*\(", "encode.rs set_custom_dictionary_with_optional_precomputed_hasher", gt))
-    m = re.search(r"let\s+max_dict_size\s*:\s*usize\s*=\s*\(1usize\s*<<\s*self\.params\.lgwin\)\.wrapping_sub\((\d+)\)\s*;", sd)
+    m = re.search(r"let\s+" + W + r"\s*:\s*usize\s*=\s*\(1usize\s*<<\s*self\.params\.lgwin\)\.wrapping_sub\((\d+)\)\s*;", sd)
     if not m:
-        raise gt.GenError("encode.rs: max_dict_size = (1 << lgwin) - K not found")
-    out.append("Definition MULTI_DICT_GAP : N := %d." % int(m.group(1)))
-    m = re.search(r"if\s+dict_size\s*==\s*0\s*\|\|\s*self\.params\.quality\s*==\s*0\s*\|\|\s*self\.params\.quality\s*==\s*1\s*\|\|\s*size\s*<=\s*(\d+)\s*\{", sd)
+        raise gt.GenError("encode.rs: <max dictionary size> = (1 << lgwin) - K not found")
+    maxd = re.escape(m.group(1))
+    out.append("Definition MULTI_DICT_GAP : N := %d." % int(m.group(2)))
+    m = re.search(r"if\s+\w+\s*==\s*0\s*\|\|\s*self\.params\.quality\s*==\s*0\s*\|\|\s*self\.params\.quality\s*==\s*1\s*\|\|\s*\w+\s*<=\s*(\d+)\s*\{", sd)
     if not m:
         raise gt.GenError("encode.rs: the early return of set_custom_dictionary (quality 0/1, size <= K) not found")
     out.append("Definition MULTI_DICT_MIN : N := %d." % int(m.group(1)))
-    m = re.search(r"if\s+size\s*>\s*max_dict_size\s*\{(.*?)\n        \}\n", sd, re.S)
+    m = re.search(r"if\s+\w+\s*>\s*" + maxd + r"\s*\{(.*?)\n        \}\n", sd, re.S)
     if not m:
-        raise gt.GenError("encode.rs: `if size > max_dict_size {` block not found")
+        raise gt.GenError("encode.rs: `if size > <max dictionary size> {` block not found")
     blk = m.group(1)
-    discard = bool(re.search(r"if\s+has_optional_hasher\s*\{[^}]*DestroyHasher\([^)]*&mut\s+self\.hasher_\)\s*;[^}]*has_optional_hasher\s*=\s*false\s*;", blk, re.S))
+    discard = bool(re.search(r"if\s+" + W + r"\s*\{[^}]*DestroyHasher\([^)]*&mut\s+self\.hasher_\)\s*;[^}]*\1\s*=\s*false\s*;", blk, re.S))
     out.append("Definition multi_discards_truncated_hasher : bool := %s." % ("true" if discard else "false"))
-    m = re.search(r"if\s+cfg!\(debug_assertions\)\s*\|\|\s*!has_optional_hasher\s*\{", sd)
-    chk = re.search(r"debug_assert!\(orig_hasher\s*==\s*self\.hasher_\)", sd)
+    m = re.search(r"if\s+cfg!\(debug_assertions\)\s*\|\|\s*!\w+\s*\{", sd)
+    chk = re.search(r"debug_assert!\(\w+\s*==\s*self\.hasher_\)", sd) or re.search(r"debug_assert!\(self\.hasher_\s*==\s*\w+\)", sd)
     out.append("Definition multi_dev_profile_compares_hasher : bool := %s." % ("true" if (m and chk) else "false"))
     # SanitizeParams
     sp = _strip(_fn_body(en, r"pub\s+fn\s+SanitizeParams\s*\(", "encode.rs SanitizeParams", gt))
-    m = re.search(r"params\.quality\s*=\s*min\((\d+)i32,\s*max\((\d+)i32,\s*params\.quality\)\)", sp)
-    m2 = re.search(r"if\s+params\.lgwin\s*<\s*(\d+)i32\s*\{\s*params\.lgwin\s*=\s*(\d+)i32;\s*\}\s*else\s+if\s+params\.lgwin\s*>\s*(\d+)i32\s*\{", sp)
-    m3 = re.search(r"if\s+params\.lgwin\s*>\s*(\d+)i32\s*\{\s*params\.lgwin\s*=\s*(\d+)i32;", sp)
+    m = re.search(r"\w+\.quality\s*=\s*min\((\d+)i32,\s*max\((\d+)i32,\s*\w+\.quality\)\)", sp)
+    m2 = re.search(r"if\s+\w+\.lgwin\s*<\s*(\d+)i32\s*\{\s*\w+\.lgwin\s*=\s*(\d+)i32;\s*\}\s*else\s+if\s+\w+\.lgwin\s*>\s*(\d+)i32\s*\{", sp)
+    m3 = re.search(r"if\s+\w+\.lgwin\s*>\s*(\d+)i32\s*\{\s*\w+\.lgwin\s*=\s*(\d+)i32;", sp)
     if not (m and m2 and m3):
         raise gt.GenError("encode.rs SanitizeParams: quality / lgwin clamps not found")
     out.append("Definition MULTI_QUALITY_MAX : Z := %d." % int(m.group(1)))
     out.append("Definition MULTI_LGWIN_MIN : Z := %d." % int(m2.group(1)))
     out.append("Definition MULTI_LGWIN_MAX : Z := %d." % int(m2.group(3)))
     out.append("Definition MULTI_LGWIN_LARGE_MAX : Z := %d." % int(m3.group(1)))
-    # compress_part
+    # compress_part: how the loop over compress_stream ends
     cp = _strip(_fn_body(th, r"fn\s+compress_part\s*<", "threading.rs compress_part", gt))
-    fin = bool(re.search(r"if\s+result\s*&&\s*state\.is_finished\(\)\s*\{\s*compression_result\s*=\s*Ok\(out_offset\);\s*break;\s*\}\s*else\s+if\s+!result\s*\|\|\s*available_out\s*==\s*0\s*\{", cp))
-    old = bool(re.search(r"if\s+result\s*\{\s*compression_result\s*=\s*Ok\(out_offset\);\s*break;\s*\}\s*else\s+if\s+available_out\s*==\s*0\s*\{", cp))
+    fin = bool(re.search(r"if\s+" + W + r"\s*&&\s*\w+\.is_finished\(\)\s*\{\s*\w+\s*=\s*Ok\(\w+\);\s*break;\s*\}\s*else\s+if\s+!\1\s*\|\|\s*\w+\s*==\s*0\s*\{", cp))
+    old = bool(re.search(r"if\s+\w+\s*\{\s*\w+\s*=\s*Ok\(\w+\);\s*break;\s*\}\s*else\s+if\s+\w+\s*==\s*0\s*\{", cp))
     if fin == old:
         raise gt.GenError("threading.rs compress_part: neither (or both) of the known forms of the loop exit found")
     out.append("Definition multi_part_requires_finished : bool := %s." % ("true" if fin else "false"))
-    ov = re.search(r"state\.params\.catable\s*=\s*true;.*?state\.params\.magic_number\s*=\s*false;.*?state\.params\.appendable\s*=\s*true;", cp, re.S)
+    ov = all(re.search(r"if\s+\w+\s*!=\s*0\s*\{[^}]*\.params\." + fld + r"\s*=\s*" + val + r"\s*;", cp, re.S) for fld, val in (("catable", "true"), ("magic_number", "false"))) \
+        and bool(re.search(r"\n    \w+\.params\.appendable\s*=\s*true\s*;", cp))
     out.append("Definition multi_job_flag_overrides : bool := %s." % ("true" if ov else "false"))
     # CompressMulti
     cm = _strip(_fn_body(th, r"pub\s+fn\s+CompressMulti\s*<", "threading.rs CompressMulti", gt))
-    contiguous = bool(re.search(r"if\s+range\.end\s*>\s*overlap\s*&&\s*range\.end\s*-\s*overlap\s*>\s*hashed_to\s*\{\s*hasher\.BulkStoreRange\(\s*input_and_params\.0\.slice\(\),\s*usize::MAX,\s*hashed_to,\s*range\.end\s*-\s*overlap,?\s*\);\s*hashed_to\s*=\s*range\.end\s*-\s*overlap;", cm))
-    asfound = bool(re.search(r"if\s+range\.end\s*-\s*range\.start\s*>\s*overlap\s*\{\s*hasher\.BulkStoreRange\(", cm))
+    contiguous = bool(re.search(r"if\s+" + W + r"\.end\s*>\s*" + W + r"\s*&&\s*\1\.end\s*-\s*\2\s*>\s*" + W + r"\s*\{\s*\w+\.BulkStoreRange\(\s*[^;]*?,\s*usize::MAX,\s*\3,\s*\1\.end\s*-\s*\2,?\s*\);\s*\3\s*=\s*\1\.end\s*-\s*\2;", cm))
+    asfound = bool(re.search(r"if\s+" + W + r"\.end\s*-\s*\1\.start\s*>\s*\w+\s*\{\s*\w+\.BulkStoreRange\(", cm))
     if contiguous == asfound:
         raise gt.GenError("threading.rs CompressMulti: neither (or both) of the known forms of the shared-hasher loop found")
     out.append("Definition multi_shared_ranges_contiguous : bool := %s." % ("true" if contiguous else "false"))
-    first = bool(re.search(r"let\s+mut\s+compression_result\s*=\s*Ok\(0usize\);", cm)) and \
-        bool(re.search(r"Ok\(compressed_out\)\s+if\s+compression_result\.is_err\(\)\s*=>", cm)) and \
-        bool(re.search(r"Err\(e\)\s*=>\s*\{\s*if\s+compression_result\.is_ok\(\)\s*\{\s*compression_result\s*=\s*Err\(e\);\s*\}\s*\}", cm))
-    overwrite = bool(re.search(r"let\s+mut\s+compression_result\s*=\s*Err\(BrotliEncoderThreadError::InsufficientOutputSpace\);", cm))
+    m = re.search(r"let\s+mut\s+" + W + r"\s*=\s*Ok\(0usize\);", cm)
+    first = False
+    if m:
+        cr = re.escape(m.group(1))
+        first = bool(re.search(r"Ok\(\w+\)\s+if\s+" + cr + r"\.is_err\(\)\s*=>", cm)) and \
+            bool(re.search(r"Err\(" + W + r"\)\s*=>\s*\{\s*if\s+" + cr + r"\.is_ok\(\)\s*\{\s*" + cr + r"\s*=\s*Err\(\1\);\s*\}\s*\}", cm))
+    overwrite = bool(re.search(r"let\s+mut\s+\w+\s*=\s*Err\(BrotliEncoderThreadError::InsufficientOutputSpace\);", cm))
     if first == overwrite:
         raise gt.GenError("threading.rs CompressMulti: neither (or both) of the known forms of the stitching result found")
     out.append("Definition multi_first_error_decides : bool := %s." % ("true" if first else "false"))
     early = len(re.findall(r"return\s+Err\(", cm))
     # the only early return left is the one inside the favor_cpu_efficiency loop (failed view)
     out.append("Definition MULTI_EARLY_RETURNS : N := %d." % early)
-    cont = bool(re.search(r"Err\(err\)\s*=>\s*\{\s*if\s+compression_result\.is_ok\(\)\s*\{\s*compression_result\s*=\s*Err\(err\);\s*\}\s*continue;\s*\}", cm)) and \
-        bool(re.search(r"Err\(_err\)\s*=>\s*\{\s*if\s+compression_result\.is_ok\(\)\s*\{\s*compression_result\s*=\s*Err\(BrotliEncoderThreadError::OtherThreadPanic\);\s*\}\s*continue;\s*\}", cm))
+    cont = bool(re.search(r"Err\(" + W + r"\)\s*=>\s*\{\s*if\s+" + W + r"\.is_ok\(\)\s*\{\s*\2\s*=\s*Err\(\1\);\s*\}\s*continue;\s*\}", cm)) and \
+        bool(re.search(r"Err\(\w+\)\s*=>\s*\{\s*if\s+" + W + r"\.is_ok\(\)\s*\{\s*\1\s*=\s*Err\(BrotliEncoderThreadError::OtherThreadPanic\);\s*\}\s*continue;\s*\}", cm))
     out.append("Definition multi_join_failure_continues : bool := %s." % ("true" if cont else "false"))
+    # the input goes back to its owner after the stitching loop
+    back = bool(re.search(r"if\s+let\s+Ok\(" + W + r"\)\s*=\s*\w+\.unwrap\(\)\s*\{\s*\*" + W + r"\s*=\s*Owned::new\(\1\.0\);", cm))
+    out.append("Definition multi_hands_input_back : bool := %s." % ("true" if back else "false"))
     return out
